@@ -189,6 +189,16 @@ theorem kind_mapper_check_then_act :
         && m.calls.all (fun c => c == "Put" || c == "mapKinds")) = true
     ∧ kindMapperMethods.any (fun m => m.name == "AssertKinds") = true := by decide
 
+/-- **assert_kinds_order**: either `AssertKinds` fills its result position-wise (`ids[idx] = s.Put(kinds[idx])`, the LIVE
+model `KM.assertKinds`, for which `assert_kinds_repeatable` holds — the state after hooks/C05-fix2.patch), or it has
+exactly the old known shape (`mapKinds` then `Put` for the missing kinds: found ids first, new ids after —
+`KM.assertKinds_old`, whose result order depends on the mapper's state, known finding
+C05:InMemoryKindMapper.AssertKinds:id-order-depends-on-state). -/
+theorem assert_kinds_order :
+    assertKindsPositionWise = true ∨
+    (assertKindsPositionWise = false ∧
+      (kindMapperMethods.filter (fun m => m.name == "AssertKinds")).all (fun m => m.calls == ["Put", "mapKinds"]) = true) := by decide
+
 /-- only `Put` writes the shared fields -/
 theorem kind_mapper_single_writer : (kindMapperMethods.filter (·.writes)).map (·.name) = ["Put"] := by decide
 
